@@ -50,6 +50,10 @@ type DeclCfg struct {
 	Handlers     bool
 	DottedCmds   bool // some command names contain a '.'
 	MultiLine    bool // some descriptions span several lines
+	CapCmds      bool // some command names contain upper-case letters
+	DupFields    bool // a nested group may reuse a field name of its parent group
+	DupTags      bool // single-valued tags are sometimes given twice (the last one counts)
+	ManyAliases  bool // commands with several aliases sharing a prefix
 }
 
 var (
@@ -182,6 +186,9 @@ func (g *declGen) opt() *OptSpec {
 	if r.Chance(1, 8) && !flag {
 		o.ValueName = strings.ToUpper(w)
 	}
+	if cfg.DupTags && o.Long != "" && o.Desc != "" && r.Chance(1, 8) {
+		o.DupTags = true
+	}
 	if cfg.Init && !fn && r.Chance(1, 3) {
 		v := genStoreValue(r, kind, false)
 		if cfg.InitMulti && multi {
@@ -243,7 +250,12 @@ func (g *declGen) group(name string, depth int) *GroupSpec {
 			ns = 0
 		}
 		for i := 0; i < ns; i++ {
-			gs.Sub = append(gs.Sub, g.group(g.takeGroup(), depth+1))
+			sub := g.group(g.takeGroup(), depth+1)
+			if cfg.DupFields && len(sub.Opts) > 0 && len(gs.Opts) > 0 && r.Chance(1, 3) {
+				// the same Go field name in a group and in its nested group
+				sub.Opts[0].Field = gs.Opts[r.Intn(len(gs.Opts))].Field
+			}
+			gs.Sub = append(gs.Sub, sub)
 		}
 	}
 	return gs
@@ -279,6 +291,14 @@ func (g *declGen) positionals() ([]*ArgSpec, bool) {
 func (g *declGen) cmd(depth int) *CmdSpec {
 	r, cfg := g.r, g.cfg
 	c := &CmdSpec{Name: g.takeCmd(), Exec: cfg.Exec && r.Chance(5, 6)}
+	if cfg.CapCmds && r.Chance(1, 5) {
+		c.Name = strings.ToUpper(c.Name[:1]) + c.Name[1:]
+	}
+	if cfg.ManyAliases && r.Chance(1, 4) {
+		g.nAlias++
+		pre := r.Pick([]string{"d", "x", "q"})
+		c.Aliases = append(c.Aliases, fmt.Sprintf("%sel%d", pre, g.nAlias), fmt.Sprintf("%selete%d", pre, g.nAlias), fmt.Sprintf("%srop%d", pre, g.nAlias))
+	}
 	if cfg.DottedCmds && r.Chance(1, 6) {
 		c.Name = r.Pick([]string{"v1.", "net.", "x."}) + c.Name
 	}
